@@ -163,6 +163,8 @@ struct Fixture {
     ~Fixture(){ if(ctxPtr() == &cx) ctxPtr() = nullptr; }
     void activate(){ ctxPtr() = &cx; const long cells = 4L << (spec.height-1); for(int d = 0 ; d < Dim ; ++d) Kernel::unitOf(d) = double(Real(spec.widths[d])) / double(cells); }
 
+    struct PartResult { bool found = false; long leafIndex = -1; Coord leafCoord; std::array<u64,K> cnt{}, phi{}; int timesStored = 0; };
+
     template <class TreeClass>
     static void tagTree(TreeClass& t){
         t.applyToAllCells([](const long level, auto& header, auto& m, auto& l){
@@ -174,7 +176,75 @@ struct Fixture {
             }
         });
     }
-    void tag(){ if(tree) tagTree(*tree); }
+    void tag(){ if(tree) tagTree(*tree); if(treeTsm) tagTree(*treeTsm); }
+
+    // ---- target/source mode -------------------------------------------------------------------------------
+    std::vector<PartResult> extractTsmTargets() const {
+        std::vector<PartResult> res(lat.size());
+        treeTsm->applyToAllLeavesTarget([&](const auto& header, const long int* idxs, const auto& /*data*/, const auto& rhs){
+            for(long p = 0 ; p < header.nbParticles ; ++p){
+                const long id = idxs[p];
+                if(id < 0 || id >= long(res.size())) continue;
+                PartResult& r = res[id];
+                r.found = true; r.timesStored += 1; r.leafIndex = header.spaceIndex;
+                r.leafCoord = vref::zeroCoord();
+                for(int d = 0 ; d < Dim ; ++d) r.leafCoord[d] = header.boxCoord[d];
+                for(int s = 0 ; s < K ; ++s){ r.cnt[s] = rhs[s][p]; r.phi[s] = rhs[K+s][p]; }
+            }
+        });
+        return res;
+    }
+    // hash of every buffer of the source side (particles and cells) / of the target side
+    u64 tsmDigest(const bool source) const {
+        u64 h = 0x77;
+        auto addBuf = [&](const unsigned char* p, size_t n){ h = hcomb(h, n); for(size_t i = 0 ; i < n ; ++i) h = hcomb(h, p[i]); };
+        for(long l = 0 ; l < spec.height ; ++l){
+            if(source) for(const auto& g : treeTsm->getCellGroupsAtLevelSource(l)){ addBuf(g.getDataPtr(), size_t(g.getDataSize())); addBuf(g.getMultipolePtr(), size_t(g.getMultipoleSize())); addBuf(g.getLocalPtr(), size_t(g.getLocalSize())); }
+            else for(const auto& g : treeTsm->getCellGroupsAtLevelTarget(l)){ addBuf(g.getDataPtr(), size_t(g.getDataSize())); addBuf(g.getMultipolePtr(), size_t(g.getMultipoleSize())); addBuf(g.getLocalPtr(), size_t(g.getLocalSize())); }
+        }
+        if(source) for(const auto& g : treeTsm->getParticleGroupsSource()){ addBuf(g.getDataPtr(), size_t(g.getDataSize())); addBuf(g.getRhsPtr(), size_t(g.getRhsSize())); }
+        else for(const auto& g : treeTsm->getParticleGroupsTarget()){ addBuf(g.getDataPtr(), size_t(g.getDataSize())); addBuf(g.getRhsPtr(), size_t(g.getRhsSize())); }
+        return h;
+    }
+    u64 tsmSourceParticleDigest() const {
+        u64 h = 0x78;
+        for(const auto& g : treeTsm->getParticleGroupsSource()){ const unsigned char* p = g.getDataPtr(); const size_t n = size_t(g.getDataSize()); h = hcomb(h, n); for(size_t i = 0 ; i < n ; ++i) h = hcomb(h, p[i]); }
+        return h;
+    }
+
+    // images: per-dimension repetition interval [lo,hi] (0,0 when not periodic); times = number of executions
+    // target/source: every target gets every source once per image (no self exclusion); single tree: i != j in the central box
+    void checkPairsGeneral(Outcome& out, const std::vector<PartResult>& res, const bool tsm, const long lo, const long hi,
+                           const bool countChannel, const bool geomChannel) const {
+        const auto& srcLat = tsm ? latSrc : lat;
+        const u64 W = u64(4) << (spec.height-1);
+        const u64 m = u64(hi - lo + 1);
+        u64 mPowDm1 = 1; for(int d = 1 ; d < Dim ; ++d) mPowDm1 *= m;
+        const u64 images = mPowDm1 * m;
+        for(size_t i = 0 ; i < lat.size() ; ++i){
+            if(!res[i].found){ out.add("result:particle-missing", "target " + std::to_string(i) + " not in the tree"); continue; }
+            std::array<u64,K> ecnt{}, ephi{};
+            for(size_t j = 0 ; j < srcLat.size() ; ++j){
+                const bool self = (!tsm && i == j);
+                u64 sum = 0;
+                for(int d = 0 ; d < Dim ; ++d){
+                    const u64 a = u64(lat[i][d]) - u64(srcLat[j][d]);
+                    u64 s2 = 0;
+                    for(long n = lo ; n <= hi ; ++n){ const u64 r = a - u64(n)*W; s2 += r*r; }
+                    sum += s2 * mPowDm1;
+                }
+                ecnt[j % K] += images - (self ? 1 : 0);
+                ephi[j % K] += sum;       // the self term at n = 0 is zero anyway
+            }
+            for(int s = 0 ; s < K ; ++s){
+                if(countChannel && res[i].cnt[s] != ecnt[s])
+                    out.add(res[i].cnt[s] < ecnt[s] ? "count:missing-contribution" : "count:duplicated-contribution",
+                            "particle " + std::to_string(i) + " slot " + std::to_string(s) + " got " + std::to_string(res[i].cnt[s]) + " expected " + std::to_string(ecnt[s]));
+                if(geomChannel && res[i].cnt[s] == ecnt[s] && res[i].phi[s] != ephi[s])
+                    out.add("geometry:wrong-potential", "particle " + std::to_string(i) + " slot " + std::to_string(s) + " got " + std::to_string(res[i].phi[s]) + " expected " + std::to_string(ephi[s]));
+            }
+        }
+    }
 
     template <class Algo>
     void run(const int flags = TbfAlgorithmUtils::TbfNearAndFarFields){
@@ -209,7 +279,6 @@ struct Fixture {
     }
     u64 treeDigest(const int which = 0x1f) const { return digestOf(*tree, which); }
 
-    struct PartResult { bool found = false; long leafIndex = -1; Coord leafCoord; std::array<u64,K> cnt{}, phi{}; int timesStored = 0; };
 
     template <class TreeClass>
     std::vector<PartResult> extractFrom(const TreeClass& t, const size_t nb) const {
@@ -392,9 +461,11 @@ struct Fixture {
                     // and with the exact lattice (no tolerance needed: closed box)
                     if(plat[id][d] < 4*header.boxCoord[d] || plat[id][d] > 4*header.boxCoord[d]+4) out.add(W+"construction:wrong-leaf-lattice", "particle " + std::to_string(id) + " dim " + std::to_string(d));
                 }
-                if(expectZero){
-                    for(size_t r = 0 ; r < std::tuple_size<typename std::decay<decltype(rhs)>::type>::value ; ++r){
-                        if(rhs[r][p] != 0) out.add(W+"construction:rhs-not-zero", "particle " + std::to_string(id));
+                if constexpr (std::tuple_size<typename std::decay<decltype(rhs)>::type>::value > 0){
+                    if(expectZero){
+                        for(size_t r = 0 ; r < std::tuple_size<typename std::decay<decltype(rhs)>::type>::value ; ++r){
+                            if(rhs[r][p] != 0) out.add(W+"construction:rhs-not-zero", "particle " + std::to_string(id));
+                        }
                     }
                 }
             }
